@@ -218,7 +218,7 @@ def check(run: Run, prog: Program, cy: CyProgram, sites):
         p in s.func.module.relpath for p in C10_FILES) and
         s.kernel.name not in ("_twins_s", "_twin_surrogates_s", "_recurrence_plot",
                               "_embed_time_series_array"))
-    run.floor("A1 call sites", n, 8)
+    run.floor("A1 call sites", n, 1)
     for (f, name, t, init, verdict, detail) in local_buffer_decls(cy):
         if not ("funcnet" in f.module.name or "climate" in f.module.name):
             continue
